@@ -264,6 +264,8 @@ macro_rules! zoo_comp {
 
 zoo_comp!(CVec, Kind::Vec, VecStorage<Self>);
 zoo_comp!(CDense, Kind::Dense, DenseVecStorage<Self>);
+// auxiliary component (not one of the kinds under test)
+zoo_comp!(CAux, Kind::Vec, VecStorage<Self>);
 zoo_comp!(CDefault, Kind::DefaultVec, DefaultVecStorage<Self>);
 zoo_comp!(CHash, Kind::HashMap, HashMapStorage<Self>);
 zoo_comp!(CBTree, Kind::BTree, BTreeStorage<Self>);
